@@ -21,7 +21,8 @@ Go facts mirrored here (file:function):
 * `isStreamRecovered`, `isCacheRecovered`, and the reply assembly of `subscribeCmd`
   (merge with buffered publications via `recovery.MergePublications` = `Merge.merge`, cache-mode
   trimming to the last publication when no delta was requested, `res.Offset` adjustments,
-  `RejectUnrecovered` flag, cache-empty handler with one retry).
+  `RejectUnrecovered` flag, cache-empty handler with one retry, removal of stale buffered copies
+  after a successful stream recovery).
 
 Epochs are natural numbers; `0` stands for the empty epoch string of a request (a stream's own
 epoch is never empty: `epoch.Generate` returns 8 letters).
@@ -41,7 +42,7 @@ structure Pub where
 deriving Repr, DecidableEq, Inhabited
 
 /-- `memstream.Stream` (+ a ghost `log` of everything ever added in this epoch; the code has no
-such field, nothing executable reads it). -/
+such field; only the driver reads it, to replay the harness re-delivering an old publication). -/
 structure RStream where
   top : Nat
   epoch : Nat
@@ -126,13 +127,20 @@ def Outcome.pubs : Outcome → List MPub
   | .reply _ p _ _ _ _ => p
   | _ => []
 
+/-- After a successful *stream* recovery, when something was buffered, merged publications at or
+below the requested offset (lagging PUB/SUB copies of what the client already holds) are dropped
+(`slices.DeleteFunc(recoveredPubs, p.Offset <= req.Offset)` guarded by `len(bufferedPubs) > 0`). -/
+def dropStale (reqOff : Nat) (buffered merged : List MPub) : List MPub :=
+  if buffered.isEmpty then merged else merged.filter (fun p => decide (reqOff < p.offset))
+
 /-- The tail of `subscribeCmd` after the recovery decision: merge with buffered publications,
-cache-mode trimming, offset bookkeeping. -/
+stale-copy removal (stream mode), cache-mode trimming, offset bookkeeping. -/
 def finish (cacheMode delta recovered : Bool) (rp buffered : List MPub) (top epoch reqOff : Nat)
     (was : Bool) : Outcome :=
   match merge rp buffered with
   | none => .insufficient
   | some (l, mx) =>
+    let l := if recovered && !cacheMode then dropStale reqOff buffered l else l
     let l := if cacheMode && decide (l.length > 1) && !delta then l.drop (l.length - 1) else l
     let latest := top
     let latest := match l.getLast? with
